@@ -10,7 +10,8 @@
   Addressability (`addr`) is tracked as encoding/json does with `reflect.Value.CanAddr`:
   pointer-receiver methods are only found on addressable values (encode.go: condAddrEncoder).
 -/
-import SonicSpec.Model.EncNum
+import SonicSpec.Model.EncStr
+import SonicSpec.Model.NumFmt
 import SonicSpec.Model.JsonTree
 import SonicSpec.Model.GoTypes
 namespace SonicSpec.Enc
@@ -189,6 +190,11 @@ def allZero : List GoVal → Bool
 end
 
 /-! ### leaves -/
+
+/-- float literals: the project's one shortest-round-trip formatter with encoding/json's notation rule
+    (core C, Model/NumFmt.lean; `none` = NaN or an infinity) -/
+abbrev fmtF64 (b : UInt64) : Option Bytes := Num.fmtF64 b
+abbrev fmtF32 (b : UInt32) : Option Bytes := Num.fmtF32 b
 
 def nullLit : Bytes := [110, 117, 108, 108]
 
